@@ -141,8 +141,10 @@ def mutants(design, rng, per_class=3):
         if sub["k"] != "slice":
             return False
         new = copy.deepcopy(sub)
+        pw = next((x["w"] for x in m["sigs"] if x["n"] == new["p"].get("n")), None) if new["p"]["k"] == "sig" else None
         if "i" in new["i"]:
-            new["i"] = {"i": rng.choice([97, -98])}
+            # far out, or (when the parent's width is at hand) the first index out on either side
+            new["i"] = {"i": rng.choice([97, -98] if pw is None else [pw, -pw - 1, pw, 97])}
         else:
             new["i"] = rng.choice([{"s": 2, "e": 2, "st": None}, {"s": 90, "e": 95, "st": None}, {"s": None, "e": None, "st": 0}])
         inst["conns"][ci][1] = set_at(c, list(path), new)
@@ -230,6 +232,8 @@ def corpus():
           "insts": [{"n": "i", "of": {"k": "module", "name": "HasB"}, "conns": [["bp", {"k": "anon", "fields": [["x", {"k": "sig", "n": "s3"}]]}]]}]}]}
     d3 = {"bundles": [], "top": "Top", "modules": [two, {"name": "Top", "sigs": [{"n": "s", "w": 4, "port": True, "dir": "none"}], "bundles": [],
           "insts": [{"n": "i", "of": {"k": "module", "name": "Two"}, "conns": [["a", {"k": "slice", "p": {"k": "sig", "n": "s"}, "i": {"s": 4, "e": 5, "st": None}}], ["b", {"k": "slice", "p": {"k": "sig", "n": "s"}, "i": {"i": 0}}]]}]}]}
+    d4 = copy.deepcopy(d3)
+    d4["modules"][1]["insts"][0]["conns"][0][1]["i"] = {"i": 4}  # the first integer index out of range
     # an extra connection given last, on an instance array / a pair / a plain instance of the top module
     import gen_design as _gd
     extras = []
@@ -242,7 +246,7 @@ def corpus():
         extras.append({"class": "extra_connection", "site": f"corpus:last-on-{kindkey}",
                        "design": {"bundles": [_gd.DIFF] if kindkey == "pair" else [], "modules": [{"name": "Top", "sigs": sigs, "bundles": bundles, "insts": [inst]}], "top": "Top"}})
     return [{"class": "missing_connection", "site": "corpus", "design": d1}, {"class": "width_mismatch", "site": "corpus", "design": d2},
-            {"class": "bad_index", "site": "corpus", "design": d3}] + extras
+            {"class": "bad_index", "site": "corpus", "design": d3}, {"class": "bad_index", "site": "corpus:int-at-width", "design": d4}] + extras
 
 
 def impl(case):
